@@ -141,3 +141,48 @@ Proof.
       apply (G _ _ Eh). auto.
     + specialize (IH o' eq_refl). eapply Forall_impl; [|exact IH]. intros out [r0 [Hin Hs]]. exists r0. split; [right; exact Hin|exact Hs].
 Qed.
+
+(* the exact shape: the data rows are the concatenation, in source order, of one block per source row; the block of r has one
+   row per part of r's split cell, in the order of the parts (so |block| = 1 + separators in the cell) *)
+Definition split_part_row (hdr : row) (i : Z) (r : row) (part : list Z) (out : row) : Prop :=
+  length out = length hdr /\
+  forall k, (k < length hdr)%nat -> nth_error out k = if Z.of_nat k =? i then Some (VStr part) else py_nth r (Z.of_nat k).
+
+Theorem splitdown_model_exact (field : val) (sep : Z) (hdr : row) (rows : list row) (outt : table) :
+  splitdown_model field sep (hdr :: rows) = (outt, None) ->
+  exists i blocks, outt = hdr :: concat blocks /\
+    Forall2 (fun r block => exists s, py_nth r i = Some (VStr s) /\
+                                      Forall2 (split_part_row hdr i r) (split_on sep [] s) block) rows blocks.
+Proof.
+  unfold splitdown_model.
+  destruct (if is_int field && (int_of field <? zlen hdr) then Some (int_of field) else py_index field (map hdr_text hdr)) as [i|];
+    [|discriminate].
+  match goal with |- (let '(o, e) := ?g rows in _) = _ -> _ => set (go := g) end.
+  destruct (go rows) as [o e] eqn:Ego. intros H. inversion H; subst; clear H. exists i.
+  revert o Ego. induction rows as [|r rest IH]; intros o Ego.
+  - cbn in Ego. inversion Ego. exists []. split; [reflexivity|constructor].
+  - cbn [go] in Ego. fold go in Ego.
+    destruct (py_nth r i) as [[| ? ? | ? | s | ? | ? | ? | ? ?]|] eqn:Er; try discriminate.
+    destruct (mapM _ (split_on sep [] s)) as [here|e] eqn:Eh; [|discriminate].
+    destruct (go rest) as [o' e'] eqn:Eg'. inversion Ego; subst; clear Ego.
+    destruct (IH o' eq_refl) as [blocks [Hb Hf]]. exists (here :: blocks). split.
+    + cbn [concat]. inversion Hb. reflexivity.
+    + constructor; [|exact Hf]. exists s. split; [exact Er|].
+      apply mapM_Forall2 in Eh. clear -Eh. induction Eh as [|part y ps ys Hy _ IHf]; constructor; [|exact IHf].
+      exact (split_row_frame r i (VStr part) (length hdr) y Hy).
+Qed.
+
+Corollary splitdown_model_row_count (field : val) (sep : Z) (hdr : row) (rows : list row) (outt : table) :
+  splitdown_model field sep (hdr :: rows) = (outt, None) ->
+  exists i, length outt = S (list_sum (map (fun r => match py_nth r i with
+                                                      | Some (VStr s) => S (length (filter (fun c => c =? sep) s))
+                                                      | _ => O end) rows)).
+Proof.
+  intros H. destruct (splitdown_model_exact _ _ _ _ _ H) as [i [blocks [-> Hf]]]. exists i. cbn [length]. f_equal. clear H.
+  induction Hf as [|r block rs bs [s [Er Hp]] _ IH]; [reflexivity|].
+  assert (G : forall (P : list Z -> row -> Prop) l l', Forall2 P l l' -> length l = length l')
+    by (induction 1; cbn; congruence).
+  cbn [concat map list_sum]. rewrite app_length, IH, Er. cbv beta iota.
+  apply (f_equal2 Nat.add); [|reflexivity].
+  rewrite <- (G _ _ _ Hp). apply split_on_count.
+Qed.
